@@ -171,6 +171,7 @@ static uint32_t assume_inv(uint64_t L, uint32_t forbidden)
 }
 
 /* Independent walk of the list at L: asserts Inv, returns the mask of free slots. */
+static int check_cache = 1;    /* cleared for moved-from objects: their insertion-position cache is a dead value (they may only be destroyed or assigned to) */
 static uint32_t check_inv(uint64_t L, const char* unused)
 {
     (void)unused;
@@ -215,7 +216,7 @@ static uint32_t check_inv(uint64_t L, const char* unused)
     }
     ASSERT(done, "Inv: ordered list reaches the end sentinel within the number of slots");
     ASSERT(H64(L_end(L)) == prev, "Inv: end sentinel links back to the last node");
-    ASSERT(seen_ld, "Inv: (last_dealloc_prev_, last_dealloc_) is an adjacent pair of the list");
+    if (check_cache) ASSERT(seen_ld, "Inv: (last_dealloc_prev_, last_dealloc_) is an adjacent pair of the list");
 #endif
     ASSERT(L_cap(L) == n, "Inv: capacity_ equals the number of nodes on the list");
     return mask;
@@ -408,7 +409,9 @@ void harness(void)
     wv = H8(wa);
     LP(move_ctor)(L2, L);
     ASSERT(check_inv(L2, "") == pre, "move ctor: destination owns exactly the source's free nodes");
+    check_cache = 0;
     ASSERT(check_inv(L, "") == 0, "move ctor: source is a valid empty list");
+    check_cache = 1;
     ASSERT(H8(wa) == wv, "move ctor: live nodes untouched");
 #elif OP == OP_MOVE_ASSIGN || OP == OP_SWAP
     uint32_t pre = assume_inv(L, 0);
@@ -422,7 +425,7 @@ void harness(void)
 #else
     LP(move_assign)(L2, L);
     ASSERT(check_inv(L2, "") == pre, "move assign: destination owns exactly the source's free nodes");
-    { uint32_t r = check_inv(L, ""); ASSERT(r == 0 || r == pre2, "move assign: source is a valid list (empty or holding the target's old nodes)"); }
+    { check_cache = 0; uint32_t r = check_inv(L, ""); check_cache = 1; ASSERT(r == 0 || r == pre2, "move assign: source is a valid list (empty or holding the target's old nodes)"); }
 #endif
     ASSERT(H8(wa) == wv, "move assign/swap: live nodes untouched");
 #else
